@@ -92,6 +92,7 @@ a_u16 a_u32_sqrt(a_u32 x)
     if (x <= 1) { return (a_u16)x; }
     x1 <<= (A_U32_BSR(x) >> 1) + 1;
     do {
+        A_VERIF_HOOK(u32_sqrt_iter)
         x0 = x1;
         x1 = (x0 + x / x0) >> 1;
     } while (x0 > x1);
@@ -148,6 +149,7 @@ a_u32 a_u64_sqrt(a_u64 x)
     if (x <= 1) { return (a_u32)x; }
     x1 <<= (A_U64_BSR(x) >> 1) + 1;
     do {
+        A_VERIF_HOOK(u64_sqrt_iter)
         x0 = x1;
         x1 = (x0 + x / x0) >> 1;
     } while (x0 > x1);
